@@ -70,7 +70,7 @@ def reshape_rechunk(inshape, outshape, inchunks, disallow_dimension_expansion=Fa
             # Special case to avoid intermediate rechunking:
             # When all the lower axis are completely chunked (chunksize=1) then
             # we're simply moving around blocks.
-            if all(len(inchunks[i]) == inshape[i] for i in range(ii)):
+            if all(all(c == 1 for c in inchunks[i]) for i in range(ii)):
                 for i in range(ii + 1):
                     result_inchunks[i] = inchunks[i]
                 result_outchunks[oi] = inchunks[ii] * math.prod(
